@@ -4,18 +4,28 @@
    sequence of Harvest calls with what each delivered.  Accepted iff HistoryOK of Paging.tla.       *)
 EXTENDS Paging, TLC, Json
 Log == ndJsonDeserialize("trace.ndjson")
-VARIABLES l, bad
-vars == <<l, bad>>
+VARIABLES l, bad, drift
+vars == <<l, bad, drift>>
 Why(e) == IF e.panic THEN "panic"
           ELSE IF \E i \in 1..Len(e.calls) : e.calls[i].tail > 0 THEN "items delivered after an error item"
           ELSE IF \E i \in 1..Len(e.calls) : e.calls[i].visits > VisitBound(e.calls[i].n) THEN "too many pages visited for one request"
           ELSE IF ~HistoryOK(e.pages, e.calls) THEN "paging history is not a prefix of the true sequence with a justified end"
           ELSE ""
-Init == l = 1 /\ bad = <<>>
+(* the implementation-shaped model run over the same request sizes: exact items, error and end per call *)
+RECURSIVE ModelCalls(_, _, _, _)
+ModelCalls(pages, cont, sizes, i) ==
+    IF i > Len(sizes) \/ cont = <<>> THEN <<>>
+    ELSE LET r == HarvestM("fixed", pages, cont[1], cont[2], sizes[i], 0) IN
+         <<[items |-> r.items, err |-> r.err, done |-> r.cont = <<>>]>> \o ModelCalls(pages, r.cont, sizes, i + 1)
+Agrees(e) == LET m == ModelCalls(e.pages, <<1, 0>>, [i \in 1..Len(e.calls) |-> e.calls[i].n], 1) IN
+             /\ Len(m) = Len(e.calls)
+             /\ \A i \in 1..Len(m) : m[i].items = e.calls[i].items /\ m[i].err = e.calls[i].err /\ m[i].done = e.calls[i].done
+Init == l = 1 /\ bad = <<>> /\ drift = <<>>
 Step == /\ l <= Len(Log) /\ l' = l + 1
         /\ LET e == Log[l] IN
-           IF e.ev = "paging" /\ Why(e) # "" THEN bad' = Append(bad, [line |-> l, why |-> Why(e)])
-           ELSE UNCHANGED bad
+           /\ IF e.ev = "paging" /\ Why(e) # "" THEN bad' = Append(bad, [line |-> l, why |-> Why(e)])
+              ELSE UNCHANGED bad
+           /\ IF e.ev = "paging" /\ ~e.panic /\ ~Agrees(e) THEN drift' = Append(drift, l) ELSE UNCHANGED drift
 Spec == Init /\ [][Step]_vars
-Done == (l = Len(Log) + 1) => PrintT("VERDICT " \o ToJson([consumed |-> l - 1, bad |-> bad]))
+Done == (l = Len(Log) + 1) => PrintT("VERDICT " \o ToJson([consumed |-> l - 1, bad |-> bad, drift |-> drift]))
 =============================================================================
